@@ -326,6 +326,10 @@ def run_case(case, step_oracle, *, final_oracle=None, nontrivial=None, extra_cla
             prev = View(w.snap())
             for i, op in enumerate(ops):
                 res = await w.apply(op)
+                if getattr(w, 'stop_history', False):
+                    # two ops in flight reached the trigger of a known finding that no guard could see in advance: the history ends
+                    # here unjudged (excluded by construction, after the fact)
+                    break
                 if fine['fails']:
                     fails = [((w.flags[0] if w.flags else s), c, f'during/after op #{i} {op}: [{s}] {m}') for s, c, m in fine['fails']]
                     break
